@@ -135,13 +135,13 @@ func main() {
 				die("overlay: %v", err)
 			}
 		}
-		fmt.Printf("simbuild: sync-imports=%d go-stmts=%d resumes=%d ctors=%d wallnow=%d etcd-leader=%d range-chan=%d\n",
-			st.syncImports, st.goStmts, st.resumes, st.ctors, st.wallNow, st.etcdLeader, st.rangeChan)
+		fmt.Printf("simbuild: sync-imports=%d go-stmts=%d resumes=%d ctors=%d wallnow=%d etcd-leader=%d range-chan=%d disk-writes=%d\n",
+			st.syncImports, st.goStmts, st.resumes, st.ctors, st.wallNow, st.etcdLeader, st.rangeChan, st.diskWrites)
 		for _, u := range st.unhandled {
 			fmt.Println("simbuild: UNHANDLED", u)
 		}
 		// every rule must still match (a refactor that silently removes a seam is an infrastructure error)
-		if st.syncImports < 30 || st.goStmts < 30 || st.resumes < 60 || st.ctors < 8 || st.wallNow < 4 || st.etcdLeader != 1 || st.rangeChan < 2 || len(st.unhandled) > 0 {
+		if st.syncImports < 30 || st.goStmts < 30 || st.resumes < 60 || st.ctors < 8 || st.wallNow < 4 || st.etcdLeader != 1 || st.rangeChan < 2 || st.diskWrites != 3 || len(st.unhandled) > 0 {
 			die("a rewrite rule matched fewer sites than expected")
 		}
 	default:
